@@ -37,6 +37,8 @@ pub struct Shape {
     pub integer_payoffs: bool,
     /// chance weights are small integers (exact rationals in a Gambit file)
     pub integer_weights: bool,
+    /// chance weights are unnormalised: every weight of the game is multiplied by this
+    pub weight_scale: f64,
 }
 
 pub const SHAPES: [&str; 8] =
@@ -66,6 +68,7 @@ pub fn shape(name: &str, r: &mut Rng) -> Shape {
         decimal_payoffs: false,
         integer_payoffs: false,
         integer_weights: false,
+        weight_scale: *r.pick(&[1.0, 1.0, 1.0, 1.0, 1.0, 1.0, 1.0, 1.0, 1.0, 1.0, 1.0, 1.0, 1.0, 1.0, 1.0, 1.0, 1e-300, 1e-30, 1e30, 8e307]),
     };
     match name {
         "tiny" => Shape { name: "tiny", max_depth: 2, max_nodes: 6, p_terminal: 0.2, ..base },
@@ -217,13 +220,14 @@ impl G<'_> {
                             1.0 + wr.below(5) as f64
                         }
                     } else if rare && i == 0 && n > 1 {
-                        // mostly 1e-3; sometimes so unlikely that everything below it has a
+                        // (scaled below) mostly 1e-3; sometimes so unlikely that everything below it has a
                         // reach far under the machine epsilon
                         *wr.pick(&[1e-3, 1e-3, 1e-3, 1e-3, 1e-9, 1e-18])
                     } else {
                         0.2 + wr.f()
                     }
                 })
+                .map(|w| if int_w { w } else { w * sh.weight_scale })
                 .collect();
             let budgets = self.split(budget - 1, n);
             let mut outs = vec![];
@@ -300,6 +304,7 @@ pub fn cli_game(r: &mut Rng, min_infosets: usize, max_nodes: usize) -> (MNode, &
         s.decimal_payoffs = true;
         s.integer_payoffs = false;
         s.integer_weights = true;
+        s.weight_scale = 1.0;
         s.pay_scale = 1.0;
         s.max_nodes = s.max_nodes.min(max_nodes);
     });
